@@ -220,6 +220,35 @@ def main():
                 badrows = np.unique(dif.tocoo().row[dif.tocoo().data > 1e-9 * (1 + abs(ref).max())])
                 res.fail(f"assembly of a large system slot={nm}", f"Ndof = {NdofL} (Ndof^2 > 2^31): {nm} differs from the scatter-add by {md:.3e} on {len(badrows)} rows (first {int(badrows[0])})",
                          dict(elemType="TRI3", Nn=int(meshL.Nn), Ndof=int(NdofL)))
+        # the same mesh with its connectivity stored in a small integer type (meshes read from compact files): the node numbers fit
+        # (Nn = 25921 < 2^15) but node * dof_n does not
+        for small in (np.int16, np.uint16, np.int32):
+            gS = GroupElemFactory.Create(ElemType.TRI3, connL.astype(small), coordL)
+            for dof_n_ in (1, 2, 3, 6):
+                res.case(("assembly-index", small.__name__, dof_n_))
+                wantA = (connL.astype(np.int64)[:, :, None] * dof_n_ + np.arange(dof_n_, dtype=np.int64)).reshape(connL.shape[0], -1)
+                try:
+                    gotA = np.asarray(gS.Get_assembly_e(dof_n_))
+                except Exception as ex:  # noqa: BLE001
+                    res.fail(f"assembly indices with a {small.__name__} connectivity", f"Get_assembly_e({dof_n_}) raised {type(ex).__name__}: {str(ex)[:100]}", dict(elemType="TRI3", Nn=int(meshL.Nn), dof_n=dof_n_, connect_dtype=small.__name__))
+                    continue
+                if gotA.shape != wantA.shape or not np.array_equal(gotA.astype(np.int64), wantA):
+                    nbad = int((gotA.astype(np.int64) != wantA).sum()) if gotA.shape == wantA.shape else -1
+                    res.fail(f"assembly indices with a {small.__name__} connectivity", f"Get_assembly_e({dof_n_}): {nbad} entries differ from node * dof_n + component (Nn = {meshL.Nn}: node * dof_n exceeds the range of {small.__name__})",
+                             dict(elemType="TRI3", Nn=int(meshL.Nn), dof_n=dof_n_, connect_dtype=small.__name__))
+            meshS = Mesh({ElemType.TRI3: GroupElemFactory.Create(ElemType.TRI3, connL.astype(small), coordL)})
+            simS = Simulations.Elastic(meshS, Models.Elastic.Isotropic(2, E=1.0, v=0.25))
+            res.case(("large-system", small.__name__))
+            try:
+                K_S = simS.Get_K_C_M_F()[0]
+                difS = abs(K_S.tocsr() - K_L.tocsr())
+                mdS = difS.max() if difS.nnz else 0.0
+            except Exception as ex:  # noqa: BLE001
+                res.fail(f"assembly with a {small.__name__} connectivity", f"Ndof = {NdofL}: assembling raised {type(ex).__name__}: {str(ex)[:120]}", dict(elemType="TRI3", Nn=int(meshL.Nn), Ndof=int(NdofL), connect_dtype=small.__name__))
+                continue
+            if K_S.shape != K_L.shape or mdS > 1e-9 * (1 + abs(K_L).max()):
+                res.fail(f"assembly with a {small.__name__} connectivity", f"Ndof = {NdofL}: K differs from the one assembled with the same connectivity in 64-bit integers by {mdS:.3e}",
+                         dict(elemType="TRI3", Nn=int(meshL.Nn), Ndof=int(NdofL), connect_dtype=small.__name__))
     except MemoryError:
         res.notes.append("large-system check skipped: not enough memory")
 
